@@ -411,6 +411,10 @@ func (c *Ctx) forkedAppends(rule string, fn *ssa.Function, reg map[ssa.Value]reg
 										}
 									}
 								}
+								// … or the merge happens before a2 runs and its value is what is read afterwards
+								if x.Block() == a2.Block() || reachable(x.Block())[a2.Block()] {
+									d = x
+								}
 							case *ssa.Extract:
 								if _, isSlice := x.Type().Underlying().(*types.Slice); isSlice && x.Index == 0 {
 									d = x
